@@ -70,6 +70,9 @@ type Policy struct {
 	// another salt) than the PA-ETYPE-INFO2: "after" = behind the ETYPE-INFO2, "before" = in front of it. RFC 4120
 	// 5.2.7.5: a client that understands ETYPE-INFO2 ignores the ETYPE-INFO.
 	LegacyInfo string
+	// InfoParamsRaw: when set, these octets are advertised as s2kparams in PA-ETYPE-INFO2 whatever the principal's real
+	// iteration count is (a KDC, or somebody answering for it, asking for an absurd amount of work).
+	InfoParamsRaw []byte
 }
 
 // Issued is one entry of the issue log.
@@ -440,6 +443,9 @@ func (r *Realm) handleAS(raw []byte) []byte {
 				it = ref.DefaultIterations(et)
 			}
 			e["s2kparams"] = []byte{byte(it >> 24), byte(it >> 16), byte(it >> 8), byte(it)}
+		}
+		if r.Policy.InfoParamsRaw != nil && et != ref.DES3 && et != ref.RC4 {
+			e["s2kparams"] = append([]byte{}, r.Policy.InfoParamsRaw...)
 		}
 		return der.ETypeInfo2.MustEncode([]any{e})
 	}
